@@ -1,13 +1,13 @@
 #!/bin/bash
 # usage: tools_import_wave.sh <outdir> <Cxx...>  copies <outdir>/<Cxx>/{1,2}/ (patch.diff demo.py notes.txt) of a sub-agent wave
 # to seeded/<Cxx>-7 and seeded/<Cxx>-8 (fourth wave) and verifies them with tools_seeded_meta.py
-out=$1; shift
+out=$1; shift; off=${WAVE_OFFSET:-6}
 ids=""
 for p in "$@"; do
   for k in 1 2; do
     src=$out/$p/$k
     [ -f $src/patch.diff ] || continue
-    n=$((k+6))
+    n=$((k+off))
     d=/verif/seeded/$p-$n
     mkdir -p $d
     cp $src/patch.diff $src/demo.py $d/
